@@ -86,6 +86,18 @@ CHECKS = {
             "Parseable epoch-0 plaintext is only required not to crash/wedge/bloat (DTLS cannot authenticate epoch 0). A process death or "
             "hang is attributed by re-running the in-flight cases alone.",
             "DESIGN.md §4 C08"),
+    "C17": ("exploration",
+            "runtime monitoring in exact virtual time (testing/synctest): emission instants compared with == against the "
+            "retransmission law; lock-step delivery (deliver one datagram, wait for quiescence) attributes emissions to receipt vs timer",
+            "For every handshake variant x role x number of datagrams received before total silence x interval {1 s, 100 ms, 3 s} x "
+            "backoff on/off the silenced endpoint's emissions over 10 virtual minutes must be exactly t0+sum min(2^i I,60 s) (or t0+kI), "
+            "nothing after a cookie request or after completion (DTLS 1.3 ticket flights follow the law); interval-restore runs (new data, "
+            "and new data followed by the peer's retransmissions); completed endpoints fed garbage / replayed flights / authentic "
+            "retransmissions of the peer's final message must emit at most flight+1 datagrams per datagram received and nothing for garbage; "
+            "closed-system runs under finite fault masks must quiesce (self-sustaining exchanges hit the simnet emission cap). "
+            "'No storms' is decided as these per-datagram and quiescence bounds, not as an absolute datagram budget.",
+            "Flights are segmented causally (emissions between two reads of the endpoint at one virtual instant).",
+            "DESIGN.md §4 C17"),
 }
 
 NOT_YET = "monitor not built yet in this session (see DESIGN.md for the planned design)"
